@@ -260,16 +260,27 @@ func vRunPutScenario(scn vPutScenario) []map[string]interface{} {
 		case <-time.After(5 * time.Second):
 		}
 	}
+	// waitFor waits for a request to server s.  If other uploads are pending and s does not show
+	// up shortly, the code is waiting for one of those instead (it consumed statuses in another
+	// order than they were released, or it differs from the model): give up on the script.
 	waitFor := func(s int) bool {
-		deadline := time.After(30 * time.Second)
+		start := time.Now()
 		for len(pending[s]) == 0 {
+			limit := 30 * time.Second
+			if npending > 0 {
+				limit = 500 * time.Millisecond
+			}
+			left := limit - time.Since(start)
+			if left <= 0 {
+				return false
+			}
 			select {
 			case r := <-g.arrivals:
 				pending[r.srv] = append(pending[r.srv], r)
 				npending++
 			case <-done:
 				return false
-			case <-deadline:
+			case <-time.After(left):
 				return false
 			}
 		}
@@ -342,6 +353,11 @@ func vRunPutScenario(scn vPutScenario) []map[string]interface{} {
 		}
 		// Whatever the code still asks for is refused for good so that the call ends.
 		for !isDone() {
+			for s, q := range pending {
+				for range q {
+					release(s, "s503")
+				}
+			}
 			select {
 			case r := <-g.arrivals:
 				pending[r.srv] = append(pending[r.srv], r)
@@ -350,11 +366,6 @@ func vRunPutScenario(scn vPutScenario) []map[string]interface{} {
 			case <-time.After(30 * time.Second):
 				g.log(map[string]interface{}{"ev": "hang"})
 				goto finish
-			}
-			for s, q := range pending {
-				for range q {
-					release(s, "s503")
-				}
 			}
 		}
 	}
